@@ -1,12 +1,13 @@
 import Comdex.Lemmas.DutchPrice
 import Comdex.Lemmas.DutchV2
 import Comdex.Lemmas.DutchV1
+import Comdex.Lemmas.DutchV1Lend
 /-!
 # C10 — Dutch auctions settle completely and sell at the posted, falling price
 
 Property clause → theorem (models: `Model/DutchPrice.lean` price functions of both generations, `Model/DutchV2.lean`
 second-generation bid path (vault / lend / external), `Model/DutchV1.lean` first-generation bid path for seized vaults;
-first-generation lend auctions `dutch_lend.go`: price functions only, see notes/C10.md).  The first-generation versions of
+`Model/DutchV1Lend.lean` first-generation lend auctions `dutch_lend.go` (`l1_…` theorems).  The first-generation versions of
 the bid-path theorems are the `v1_…` theorems at the end; they hold without exception.
 
 * "start price (oracle price times premium)"                         → `start_price_is_oracle_times_premium`
@@ -286,7 +287,8 @@ theorem close_proceeds_distributed (e : Env) (hw : WfEnv e) (s s' : St) (a : Auc
     (s'.burned - s.burned) + (s'.bank.get .collector .debt - s.bank.get .collector .debt)
       + (s'.bank.get .keeper .debt - s.bank.get .keeper .debt)
       + (s'.bank.get .initiator .debt - s.bank.get .initiator .debt)
-      + (s'.bank.get .pool .debt - s.bank.get .pool .debt) + (s'.booked - s.booked) = e.target ∧
+      + (s'.bank.get .pool .debt - s.bank.get .pool .debt) + (s'.bank.get .lendres .debt - s.bank.get .lendres .debt)
+      + (s'.booked - s.booked) = e.target ∧
     s'.bank.get .owner .coll - s.bank.get .owner .coll = e.coll0 - s'.recv := by
   unfold bidE at h
   split at h
@@ -305,6 +307,19 @@ theorem close_proceeds_distributed (e : Env) (hw : WfEnv e) (s s' : St) (a : Auc
       · have := m7 (by simpa using hcl)
         rw [this] at hc; cases hc
     · cases h
+
+/-- **second-generation lend close, the split** (`liquidate.go:721-813`): of the target handed over by the auction module the
+debt pool keeps `target − penalty − reserve interest`, the lend reserve receives `penalty + reserve interest`, the bridge asset of a
+cross-pool borrow returns to the pool the collateral was lent to; no collateral moves, nothing is burned, no fee is booked. -/
+theorem lend_close_split (e : Env) (s s3 : St) (hk : e.kind = .lend) (h : distribute e s = .ok s3) :
+    s3.bank.get .auction .debt = s.bank.get .auction .debt - e.target ∧
+    s3.bank.get .pool .debt = s.bank.get .pool .debt + e.target - e.lendPen - DutchV2.posPart e.lendInt ∧
+    s3.bank.get .lendres .debt = s.bank.get .lendres .debt + e.lendPen + DutchV2.posPart e.lendInt ∧
+    s3.bank.get .pool .transit = s.bank.get .pool .transit - DutchV2.posPart e.bridged ∧
+    s3.bank.get .poolIn .transit = s.bank.get .poolIn .transit + DutchV2.posPart e.bridged ∧
+    s3.bank.get .auction .transit = s.bank.get .auction .transit ∧
+    (∀ a, s3.bank.get a .coll = s.bank.get a .coll) ∧ s3.burned = s.burned ∧ s3.netFees = s.netFees ∧ s3.extFees = s.extFees :=
+  distribute_lend hk h
 
 /-- **custody**: after ANY sequence of operations (as in `bidders_pay_le_target_partial`), once the auction is closed the
 module account holds, of the collateral, exactly what does not belong to this auction, and of the debt denom exactly what
@@ -388,7 +403,7 @@ theorem init_inv (e : DutchV1.Env) (a : DutchV1.Auc) (b : Bank) (nf : Option Int
 end V1
 
 /-- **first generation: bidders pay ≤ target and receive ≤ the seized collateral**, for every sequence of bids (any bidders,
-any amounts incl. zero/negative/over-sized) and block hooks (price updates, restarts, any oracle path) -/
+any amounts incl. zero/negative/over-sized) and block hooks (price updates, restarts, emergency-shutdown wind-down, any oracle path) -/
 theorem v1_bidders_pay_le_target_and_receive_le_collateral (e : DutchV1.Env) (a : DutchV1.Auc) (b : Bank) (nf : Option Int)
     (hs : V1.Start e a) (ops : List DutchV1.Op) :
     let s := DutchV1.run e (DutchV1.initSt e a b nf) ops
@@ -446,6 +461,23 @@ theorem v1_bid_moves_and_close_distributes (e : DutchV1.Env) (s s' : DutchV1.St)
         by rw [m2]; have := hpo.slice_nonneg; omega, m5, m6⟩
     · cases h
 
+/-- **first generation, emergency-shutdown wind-down** (`dutch.go:515-637`): when the block hook finds the window over and the app's
+ESM on, the auction is closed and NOTHING of it stays in auction custody: the unsold collateral leaves to the vault module (if less
+than the principal was collected: the vault is re-created / topped up) or to the ESM module (otherwise), everything collected is
+burned except the excess over the principal, which is the penalty for the collector. -/
+theorem v1_esm_winddown_empties_custody (e : DutchV1.Env) (s s' : DutchV1.St) (a : DutchV1.Auc) (snapshot : Bool)
+    (hpr : 0 ≤ e.principal) (hi : DutchV1.Inv e s) (ha : s.auc = some a) (h : DutchV1.windDown e s a snapshot = .ok s') :
+    s'.auc = none ∧ s'.bank.get .auction .coll = s'.otherC ∧ s'.bank.get .auction .debt = s'.otherD ∧
+    (s'.bank.get .vaultMod .coll - s.bank.get .vaultMod .coll) + (s'.bank.get .esm .coll - s.bank.get .esm .coll) = e.coll0 - s.recv ∧
+    (s'.burned - s.burned) + (s'.bank.get .collector .debt - s.bank.get .collector .debt) = s.paid ∧
+    (a.inCur < e.principal → s'.bank.get .vaultMod .coll = s.bank.get .vaultMod .coll + a.outCur ∧ s'.burned = s.burned + a.inCur) ∧
+    (e.principal ≤ a.inCur → s'.bank.get .esm .coll = s.bank.get .esm .coll + a.outCur ∧ s'.burned = s.burned + e.principal ∧
+        s'.bank.get .collector .debt = s.bank.get .collector .debt + (a.inCur - e.principal)) := by
+  obtain ⟨o1, o2, o3, o4, o5, o6⟩ := hi.open_ a ha
+  have hin0 : 0 ≤ a.inCur := by rw [← o1]; exact hi.paid_nonneg
+  obtain ⟨w1, _, _, w4, w5, w6, w7, w8, w9, w10, w11⟩ := DutchV1.windDown_ok hpr o4 hin0 h
+  exact ⟨w1, by rw [w6, w4]; omega, by rw [w7, w5]; omega, by rw [w8]; omega, by rw [w9]; omega, w10, w11⟩
+
 /-- **first generation: each bid at the posted price** (`recv ≤ (paid + 2)·p_debt·dec_c/(dec_d·p_coll) + 1`) -/
 theorem v1_bid_at_posted_price (e : DutchV1.Env) (a : DutchV1.Auc) (slice0 : Int) (p : DutchV1.Plan)
     (hdC : 0 < e.decC) (hdD : 0 < e.decD) (hpr : (0 : Int) ≤ a.price)
@@ -458,5 +490,114 @@ theorem v1_bid_at_posted_price (e : DutchV1.Env) (a : DutchV1.Auc) (slice0 : Int
   unfold monPosted
   simp only [decide_eq_true_eq, Int.add_zero]
   exact DutchV1.plan_posted h hdC hdD hpr (Int.le_of_lt hsb.1) hs.2 hsb.2
+
+
+/-! ## first-generation lend auctions (`x/auction/keeper/dutch_lend.go`) -/
+
+namespace L1
+open Comdex.DutchV1Lend
+
+/-- the record `StartLendDutchAuction` writes, and what the liquidation moved into the module: the auctioned collateral plus a
+bonus pot that covers the largest bonus payable on it -/
+structure Start (e : DutchV1Lend.Env) (a : DutchV1Lend.Auc) : Prop where
+  out : a.outCur = e.coll0
+  inn : a.inCur = 0
+  target_nonneg : 0 ≤ e.target
+  coll_nonneg : 0 ≤ e.coll0
+  bonus_nonneg : (0 : Int) ≤ e.bonus
+  pot : e.coll0 + e.coll0 * e.bonus / P ≤ e.deposit
+
+theorem init_inv (e : DutchV1Lend.Env) (a : DutchV1Lend.Auc) (b : Bank) (hs : Start e a) :
+    DutchV1Lend.Inv e (DutchV1Lend.initSt e a b) := by
+  refine ⟨by simp [DutchV1Lend.initSt], by simp [DutchV1Lend.initSt], by simp [DutchV1Lend.initSt], by simp [DutchV1Lend.initSt],
+    by simp [DutchV1Lend.initSt], ?_, ?_⟩
+  · intro a' ha'
+    simp only [DutchV1Lend.initSt, Option.some.injEq] at ha'
+    subst ha'
+    simp only [DutchV1Lend.initSt]
+    refine ⟨by rw [hs.inn], by rw [hs.inn]; exact hs.target_nonneg, by rw [hs.out]; omega, by rw [hs.out]; exact hs.coll_nonneg,
+      by rw [hs.out]; omega⟩
+  · intro hn; simp [DutchV1Lend.initSt] at hn
+
+end L1
+
+/-- **first-generation lend auctions: bidders pay ≤ target, receive (bonus included) ≤ what was seized into the module**, for every
+sequence of bids and block hooks, every re-liquidation hand-over and every reserve balance -/
+theorem l1_bidders_pay_le_target_and_receive_le_seized (e : DutchV1Lend.Env) (a : DutchV1Lend.Auc) (b : Bank)
+    (hs : L1.Start e a) (ops : List DutchV1Lend.Op) :
+    let s := DutchV1Lend.run e (DutchV1Lend.initSt e a b) ops
+    0 ≤ s.paid ∧ s.paid ≤ e.target ∧ 0 ≤ s.recv ∧ s.recv ≤ e.deposit := by
+  have hi := DutchV1Lend.run_inv hs.bonus_nonneg ops _ (L1.init_inv e a b hs)
+  simp only
+  set s := DutchV1Lend.run e (DutchV1Lend.initSt e a b) ops
+  have hsold : s.recv - s.bonusPaid ≤ e.coll0 := by
+    cases hauc : s.auc with
+    | none => exact (hi.closed hauc).2.1
+    | some a' => obtain ⟨_, _, o3, o4, _⟩ := hi.open_ a' hauc; omega
+  have hbp : s.bonusPaid ≤ e.coll0 * e.bonus / P := by
+    apply Int.le_ediv_of_mul_le (by simp [P])
+    exact Int.le_trans hi.bonus_le (Int.mul_le_mul_of_nonneg_right hsold hs.bonus_nonneg)
+  refine ⟨hi.paid_nonneg, ?_, by have := hi.bonus_nonneg; have := hi.sold_nonneg; omega, by have := hs.pot; omega⟩
+  cases hauc : s.auc with
+  | none => exact (hi.closed hauc).1
+  | some a' => obtain ⟨o1, o2, _⟩ := hi.open_ a' hauc; omega
+
+/-- **the proceeds never rest in auction custody** (each bid forwards what it collected to the lending side in the same message),
+and of the collateral the module holds exactly: what is still for sale + the unpaid part of the bonus pot (+ what is not this
+auction's).  `_partial`: after the close the unpaid part of the bonus pot STAYS in the module account — the property's "no
+unaccounted remainder" is false here (`l1_close_custody_counterexample`). -/
+theorem l1_close_custody_partial (e : DutchV1Lend.Env) (a : DutchV1Lend.Auc) (b : Bank) (hs : L1.Start e a)
+    (ops : List DutchV1Lend.Op) :
+    let s := DutchV1Lend.run e (DutchV1Lend.initSt e a b) ops
+    s.bank.get .auction .debt = s.otherD ∧
+    (∀ a', s.auc = some a' → s.bank.get .auction .coll = s.otherC + a'.outCur + (e.deposit - e.coll0 - s.bonusPaid)) ∧
+    (s.auc = none → s.bank.get .auction .coll = s.otherC + (e.deposit - e.coll0 - s.bonusPaid)) ∧
+    0 ≤ e.deposit - e.coll0 - s.bonusPaid := by
+  have hi := DutchV1Lend.run_inv hs.bonus_nonneg ops _ (L1.init_inv e a b hs)
+  simp only
+  set s := DutchV1Lend.run e (DutchV1Lend.initSt e a b) ops
+  have hsold : s.recv - s.bonusPaid ≤ e.coll0 := by
+    cases hauc : s.auc with
+    | none => exact (hi.closed hauc).2.1
+    | some a' => obtain ⟨_, _, o3, o4, _⟩ := hi.open_ a' hauc; omega
+  have hbp : s.bonusPaid ≤ e.coll0 * e.bonus / P := by
+    apply Int.le_ediv_of_mul_le (by simp [P])
+    exact Int.le_trans hi.bonus_le (Int.mul_le_mul_of_nonneg_right hsold hs.bonus_nonneg)
+  refine ⟨hi.debt_custody, ?_, ?_, by have := hs.pot; omega⟩
+  · intro a' ha'; exact (hi.open_ a' ha').2.2.2.2
+  · intro hn; exact (hi.closed hn).2.2
+
+/-- what one accepted bid moves: the bidder pays exactly `Δpaid` and receives exactly `Δrecv` (slice + bonus), no other bidder
+moves, the lending side receives exactly `Δpaid`, and a closing bid hands the unsold collateral to the borrower -/
+theorem l1_bid_moves_and_close_distributes (e : DutchV1Lend.Env) (s s' : DutchV1Lend.St) (who : Nat) (sl redep resBal : Int)
+    (hb : (0 : Int) ≤ e.bonus) (hi : DutchV1Lend.Inv e s) (h : DutchV1Lend.bidE e s who sl redep resBal = .ok s') :
+    s'.bank.get (.bidder who) .debt = s.bank.get (.bidder who) .debt - (s'.paid - s.paid) ∧
+    s'.bank.get (.bidder who) .coll = s.bank.get (.bidder who) .coll + (s'.recv - s.recv) ∧
+    (∀ n, n ≠ who → s'.bank.get (.bidder n) .coll = s.bank.get (.bidder n) .coll ∧
+                    s'.bank.get (.bidder n) .debt = s.bank.get (.bidder n) .debt) ∧
+    s'.bank.get .pool .debt = s.bank.get .pool .debt + (s'.paid - s.paid) ∧
+    (s'.auc = none → s'.bank.get .owner .coll - s.bank.get .owner .coll = e.coll0 - (s'.recv - s'.bonusPaid)) := by
+  unfold DutchV1Lend.bidE at h
+  split at h
+  · cases h
+  · rename_i a ha
+    split at h
+    · rename_i p hp
+      obtain ⟨_, m1, m2, m3, m4, m5, m6, m7⟩ := DutchV1Lend.apply_ok hb hi ha (DutchV1Lend.plan_ok hb hp) h
+      exact ⟨by rw [m3, m1]; omega, by rw [m4, m2]; omega, m5, by rw [m6, m1]; omega, m7⟩
+    · cases h
+
+/-- witness (first lend sequence of the harness run): 33 816 425 auctioned, 35 507 246 moved in, bonus 5 % -/
+def l1Env : DutchV1Lend.Env := { decC := 1000000, decD := 1000000, target := 30434782, coll0 := 33816425, deposit := 35507246, bonus := 50000000000000000, dust := 1000000, T := 3600, buffer := 1200000000000000000, cusp := 700000000000000000 }
+def l1Auc : DutchV1Lend.Auc := { outCur := 33816425, inCur := 0, price := 2160000000000000000000000, init := 2160000000000000000000000, endP := 1512000000000000000000000, inPrice := 2000000000000000000000000, start := 0, end_ := 3600 }
+def l1Bank : Bank := [((.auction, .coll), 35507246), ((.bidder 1, .debt), 100000000), ((.bidder 2, .debt), 100000000)]
+def l1Final : DutchV1Lend.St := DutchV1Lend.run l1Env (DutchV1Lend.initSt l1Env l1Auc l1Bank)
+  [.bid 1 1000000 0 0, .tick 1200 1800000 true 2000000 true, .bid 2 32816425 0 0]
+
+/-- **the bonus on the unsold collateral is stranded**: the target is reached with 2 616 032 units unsold (returned to the borrower);
+the 5 % bonus pot that was seized for them — 130 802 units — stays in the auction module account, claimed by nothing. -/
+theorem l1_close_custody_counterexample :
+    l1Final.auc = none ∧ l1Final.paid = 30434782 ∧ l1Final.bank.get .owner .coll = 2616032 ∧
+    l1Final.bank.get .auction .coll = 130802 ∧ l1Final.otherC = 0 := by decide
 
 end Comdex.C10
